@@ -577,9 +577,15 @@ func (c *compiler) compileFunc(compilerScope compilerScopeType, Ast ast.Ast, Arg
 	if len(Args.KwDefaults) > len(Args.Kwonlyargs) {
 		panic("compile: more KwDefaults than Kwonlyargs")
 	}
+	kwdefaults := uint32(0)
 	for i := range Args.KwDefaults {
+		// nil for a keyword only parameter without a default
+		if Args.KwDefaults[i] == nil {
+			continue
+		}
 		c.LoadConst(py.String(Args.Kwonlyargs[i].Arg))
 		c.Expr(Args.KwDefaults[i])
+		kwdefaults++
 	}
 
 	// Annotations
@@ -611,7 +617,6 @@ func (c *compiler) compileFunc(compilerScope compilerScopeType, Ast ast.Ast, Arg
 
 	// Make function or closure, leaving it on the stack
 	posdefaults := uint32(len(Args.Defaults))
-	kwdefaults := uint32(len(Args.KwDefaults))
 	args := uint32(posdefaults + (kwdefaults << 8) + (num_annotations << 16))
 	c.makeClosure(newC.Code, args, newC, newC.qualname)
 
